@@ -6,7 +6,7 @@
   Run: `lake env lean --run drivers/C14.lean`
 -/
 import LccModel.Proto
-import LccModel.Model.Prepare
+import LccModel.Model.Inject
 open Lean LccModel LccModel.Proto LccModel.Loops
 
 def getStrs (j : Json) (k : String) : Except String (List String) := do
@@ -42,10 +42,37 @@ def parseTest (j : Json) : Except String Prepare.PTest := do
   pure ⟨← getStr j "path", ← getStrs j "args", ← getStrs j "parameters", ← getBool j "disabled", deps,
         ← parseKVs j "props", ← getStrs j "tags"⟩
 
-partial def parseSuite (j : Json) : Except String Prepare.PSuite := do
+def parseShape (s : String) : Except String Inject.Shape :=
+  match s with
+  | "pub" => pure .pub
+  | "priv" => pure .priv
+  | "mangled" => pure .mangled
+  | "dunder" => pure .dunder
+  | _ => throw s!"unknown shape {s}"
+
+def parsePlace (s : String) : Except String Inject.Place :=
+  match s with
+  | "body" => pure .body
+  | "base" => pure .base
+  | "init" => pure .init
+  | "module" => pure .module
+  | _ => throw s!"unknown place {s}"
+
+def parseAttr (j : Json) : Except String Inject.Attr := do
+  let fx : Option String := match j.getObjVal? "fixture" with
+    | .ok (Json.str f) => some f
+    | _ => none
+  pure ⟨← getStr j "name", ← parseShape (← getStr j "shape"), ← parsePlace (← getStr j "place"), fx⟩
+
+/-- `dir()`: the attributes in alphabetical order of their (mangled) names — done here, outside the model -/
+def dirOrder (l : List Inject.Attr) : List Inject.Attr :=
+  (l.toArray.qsort (fun a b => a.name < b.name)).toList
+
+partial def parseSuite (j : Json) : Except String Inject.DSuite := do
   let tests ← (← getArr j "tests").toList.mapM parseTest
   let subs ← (← getArr j "subs").toList.mapM parseSuite
-  pure (.mk (← getStr j "path") (← getBool j "disabled") (← getStrs j "injected") (← getStrs j "setup_args")
+  let attrs ← (← getArr j "attrs").toList.mapM parseAttr
+  pure (.mk (← getStr j "path") (← getBool j "disabled") (dirOrder attrs) (← getStrs j "setup_args")
             (← parseKVs j "props") (← getStrs j "tags") tests subs)
 
 def parsePolicy (j : Json) : Except String Policy.Policy := do
@@ -127,14 +154,15 @@ def handle (j : Json) : Except String Json := do
   let all ← (← getArr j "all").toList.mapM parseSuite
   let sched ← (← getArr j "sched").toList.mapM parseSuite
   let fd ← getBool j "fd"
-  let p : Prepare.Project := ⟨policy, decls, all, sched⟩
-  match Prepare.prepare p with
+  let p : Inject.DProject := ⟨policy, decls, all, sched⟩
+  match Inject.prepareD p with
   | .error (.policy e) => pure (policyErr e)
   | .error (.deps e) => pure (depsErr e)
   | .error (.fixture e) => pure (fixtureErr e)
   | .ok prep =>
     let R := prep.registry
-    let S := Prepare.toFixtureSuites sched
+    let S := Prepare.toFixtureSuites (Inject.lowerL sched)
+    let declared := Inject.flattenDL sched
     let dsess := Fixture.usedInSuites S fd
     let suites := Fixture.withInhSuites false S
     let suiteRows := suites.map (fun (inh, s) =>
@@ -148,6 +176,8 @@ def handle (j : Json) : Except String Json := do
     pure (Json.mkObj [
       ("result", "ok"),
       ("registry", strs (Fixture.names R)),
+      ("injected", Json.arr (declared.map (fun d => Json.arr #[Json.str d.path, strs (Inject.injectedNames d.attrs)])).toArray),
+      ("assigned", Json.arr (declared.map (fun d => Json.arr #[Json.str d.path, strs (Inject.assigned d.attrs)])).toArray),
       ("resolved", Json.arr (prep.resolved.map (fun (t, ds) => Json.arr #[Json.str t, strs ds])).toArray),
       ("pre_run", schedJson (Fixture.scheduled R dsess .preRun)),
       ("session", schedJson (Fixture.scheduled R dsess .session)),
